@@ -1745,6 +1745,10 @@ int param_ffi_check_type(symtab * tab, param * param_value,
         /* these types are supported for ffi */
         break;
         case PARAM_TOUPLE:
+            if (param_value->touple.dims != NULL)
+            {
+                param_list_ffi_check_type(tab, param_value->touple.dims, syn_level, result);
+            }
         break;
         case PARAM_RECORD:
             param_enum_record_check_type(tab, param_value, syn_level, result);
